@@ -4,6 +4,10 @@ import json, os
 V = os.path.dirname(os.path.dirname(os.path.abspath(__file__)))
 
 CHECKS = {
+    'C10': ('glam leaf-table inclusion in encase\'s impl table (read from the pinned encase source) + shared composite-type / derive / closure rules',
+            'The byte image written by encase is run-time behaviour and is NOT decided. Decided necessary structural clause: under Glam every vector / square-matrix leaf maps to a type for which encase-0.10/src/impls/glam.rs declares a vector/matrix impl of the same dimensions and scalar (never a plain array for a WGSL vector), scalars are encase-supported; arrays/structs/runtime arrays per C06 rules; ShaderType derived exactly on the closed host-shareable set when the switch is on (C09 rows + closure discipline).',
+            'Trusted: encase lays out its impls per the WGSL rules; glam types. Known finding: f64 leaves have no encase impl.',
+            'DESIGN.md section 3 C10'),
     'C14': ('hole-provenance / sibling-agreement rules on entry-point templates + finite evaluation of the fragment target-count table (syn-based abstract interpreter)',
             'Structural clauses: ENTRY_ constants for all entry points with value = exact name, and every helper builds the constant identifier with the same expression as the definition; compute items per Compute entry (constructor name, entry_point: Some(name) identity, module\'s own shader/layout, workgroup constant = components 0,1,2 in order); fragment helper per Fragment entry with target count = location+1 / max(location+1) over struct members / 0 (evaluated on representative result shapes and symbolically for structs); vertex helper per Vertex entry (buffer count by C07 rule D); vertex_state/fragment_state forward field-wise.',
             'Trusted: Engine A semantics; wgpu addresses colour targets by @location.',
